@@ -95,3 +95,68 @@ fn c20_two_fds_distinct() {
     kani::cover!(seen == 1, "C20.cover_two_fds");
     std::mem::forget(poller);
 }
+
+/// A failed poll (epoll_wait interrupted by a signal, or any other errno) must not leave the selector unusable:
+/// the error is reported, the poll guard is released on that path too, and the next select delivers the pending
+/// event to its waiter. Otherwise every later wait on this loop ends by timeout only.
+#[kani::proof]
+#[kani::unwind(4)]
+fn c20_failed_poll_releases_the_guard() {
+    let poller = Poller::new().unwrap();
+    let t1: u64 = kani::any();
+    let fd1: c_int = 5;
+    let r = poller.add_read_event(fd1, t1); let ok1 = r.is_ok(); std::mem::forget(r);
+    kani::assert(ok1, "C20.add_read_event_ok");
+    let e: i32 = kani::any();
+    kani::assume(e == libc::EINTR || e == libc::EBADF || e == libc::ENOMEM);
+    unsafe { mio::POLL_FAIL_NEXT = e; mio::FIRE = 1; }
+    let mut events = Events::with_capacity(4);
+    let p = poller.select(&mut events, None);
+    let failed = p.is_err();
+    std::mem::forget(p);
+    kani::assert(failed, "C20.poll_failure_is_reported");
+    kani::assert(!poller.waiting().load(Ordering::Acquire), "C20.poll_guard_released_on_every_return");
+    let mut events = Events::with_capacity(4);
+    let p = poller.select(&mut events, None);
+    std::mem::forget(p);
+    let mut seen = 0;
+    for ev in events.iter() {
+        kani::assert(Event::get_token(ev) == t1, "C20.event_decodes_to_its_own_waiter");
+        seen += 1;
+    }
+    kani::assert(seen == 1, "C20.event_delivered_after_a_failed_poll");
+    kani::cover!(seen == 1 && e == libc::EINTR, "C20.cover_event_after_interrupted_poll");
+    std::mem::forget(poller);
+}
+
+/// Two waiters on one descriptor (one per direction) share one OS registration, which carries one token. The call
+/// that adds the second direction must register the token it was given (its caller is the coroutine about to
+/// wait): the event then decodes to that caller, never to the earlier waiter recorded for the other direction.
+#[kani::proof]
+#[kani::unwind(4)]
+fn c20_second_direction_registers_its_callers_token() {
+    let poller = Poller::new().unwrap();
+    let t1: u64 = kani::any();
+    let t2: u64 = kani::any();
+    kani::assume(t1 != t2);
+    let fd: c_int = 5;
+    let read_first: bool = kani::any();
+    let r = if read_first { poller.add_read_event(fd, t1) } else { poller.add_write_event(fd, t1) };
+    let ok1 = r.is_ok(); std::mem::forget(r);
+    let r = if read_first { poller.add_write_event(fd, t2) } else { poller.add_read_event(fd, t2) };
+    let ok2 = r.is_ok(); std::mem::forget(r);
+    kani::assert(ok1 && ok2, "C20.add_event_ok");
+    unsafe { mio::FIRE = 1; }
+    let mut events = Events::with_capacity(4);
+    let p = poller.select(&mut events, None);
+    std::mem::forget(p);
+    let mut seen = 0;
+    for ev in events.iter() {
+        kani::assert(Event::get_token(ev) == t2, "C20.event_decodes_to_the_waiter_that_registered_last");
+        seen += 1;
+    }
+    kani::assert(seen == 1, "C20.exactly_one_event");
+    kani::cover!(seen == 1 && read_first, "C20.cover_write_added_to_read");
+    kani::cover!(seen == 1 && !read_first, "C20.cover_read_added_to_write");
+    std::mem::forget(poller);
+}
